@@ -35,6 +35,7 @@ function mkSer(state) {
       case 'number': return Object.is(x, -0) ? '-0' : String(x);
       case 'string':
         if (x.length > 8 && /\bfunction\b|=>|\bclass\b|\[native code\]/.test(x) && /[{(]/.test(x)) state.reflect = true; // source text of a function leaked into a value
+        if (x.length > 12 && /is not a function|is not defined|Cannot read propert|Cannot set propert|is not iterable|is not a constructor|before initialization|Cannot access|already been declared|Assignment to constant|Cannot convert|Cannot mix BigInt|Invalid array length|is not an? object|Cannot destructure|Class constructor|Unexpected token|Invalid left-hand|Cannot delete|Cannot assign|Cannot redefine|circular structure|read-only property|Reduce of empty|toString\(\) radix|toFixed\(\) digits|argument must be|Invalid count|Maximum call stack/.test(x)) state.errmsg = true; // wording of an engine error message leaked into a value
         return JSON.stringify(x);
       case 'boolean': return String(x);
       case 'bigint': return x + 'n';
@@ -208,6 +209,7 @@ function runOne(src, probes, timeout) {
   else if (state.stack && status === 'ok') status = 'stack';
   if (state.overflow && status === 'ok') status = 'traceoverflow';
   if (state.reflect && status === 'ok') status = 'reflection';
+  if (state.errmsg && status === 'ok') status = 'errmsg';
   return { status, comp, trace, gl, ms };
 }
 
@@ -230,7 +232,7 @@ function handle(req) {
       o.compile = compile(out) === null;
       reply.outs.push(o); continue;
     }
-    const B = runOne(out, req.probes, A.status === 'ok' ? timeout * 5 : timeout);
+    const B = runOne(out, req.probes, A.status === 'ok' ? (req.outTimeout || timeout * 5) : timeout);
     if (req.full && B.trace) { o.trace = B.trace; o.gl = B.gl; o.comp = B.comp; }
     if (B.status === 'syntax') { o.compile = false; o.diff = 'syntax'; o.detail = clip(B.msg); reply.outs.push(o); continue; }
     if (A.status !== 'ok') { reply.outs.push(o); continue; } // not judged (timeout/tdz/stack)
